@@ -46,8 +46,8 @@ type node struct {
 
 func eventClass(e string) string {
 	k, arg, _ := strings.Cut(e, ":")
-	if k == "cli" {
-		return "cli:" + arg
+	if k == "cli" || k == "ucli" {
+		return k + ":" + arg
 	}
 	return k
 }
